@@ -210,29 +210,43 @@ def fmtMono : Except Fault Monotonic → String
 
 variable [Cmp α] [Add α] [Sub α] [Mul α] [Div α] [Neg α] [NatCast α] [ToUsize α] [RemEuclid α]
 
+/-- an `oob` result with the coordinate and value the error message names -/
+def withWitness (s : String) (w : Option (String × α)) : String :=
+  if s == "oob" then
+    match w with
+    | some (ax, v) => s!"oob {ax} {(ScalarIO.print v).getD "-"}"
+    | none => "oob ? -"
+  else s
+
+def wit1 (it : Interp1 α) (qs : List α) : Option (String × α) :=
+  (oobWitness1 it.xs qs).map (fun v => ("x", v))
+
+def wit2 (it : Interp2 α) (qs : List (α × α)) : Option (String × α) :=
+  (oobWitness2 it.xs it.ys qs).map (fun p => (if p.1 then "y" else "x", p.2))
+
 def runEntry1 (it : Interp1 α) : P String := do
   let trailing := it.data.shape.drop 1
   match (← tok) with
   | "build" => pure "built"
   | "scalar" => do
     let q ← scalarTok (α := α)
-    pure (fmtScalar (epScalar it.at q))
+    pure (withWitness (fmtScalar (epScalar it.at q)) (wit1 it [q]))
   | "single" => do
     let q ← scalarTok (α := α)
-    pure (fmtArr (epInterp trailing it.at q))
+    pure (withWitness (fmtArr (epInterp trailing it.at q)) (wit1 it [q]))
   | "into" => do
     let q ← scalarTok (α := α)
     let bs ← bufTok
-    pure (fmtArr (epInterpInto trailing it.at q bs))
+    pure (withWitness (fmtArr (epInterpInto trailing it.at q bs)) (wit1 it [q]))
   | "array" => do
     tagTok
     let qs ← ndarrTok (α := α)
-    pure (fmtArr (epArray trailing it.at qs.shape qs.flat))
+    pure (withWitness (fmtArr (epArray trailing it.at qs.shape qs.flat)) (wit1 it qs.flat))
   | "ainto" => do
     tagTok
     let qs ← ndarrTok (α := α)
     let bs ← bufTok
-    pure (fmtArr (epArrayInto trailing it.at qs.shape qs.flat bs))
+    pure (withWitness (fmtArr (epArrayInto trailing it.at qs.shape qs.flat bs)) (wit1 it qs.flat))
   | t => throw s!"bad entry {t}"
 
 def runEntry2 (it : Interp2 α) : P String := do
@@ -242,25 +256,25 @@ def runEntry2 (it : Interp2 α) : P String := do
   | "build" => pure "built"
   | "scalar" => do
     let x ← scalarTok (α := α); let y ← scalarTok (α := α)
-    pure (fmtScalar (epScalar f (x, y)))
+    pure (withWitness (fmtScalar (epScalar f (x, y))) (wit2 it [(x, y)]))
   | "single" => do
     let x ← scalarTok (α := α); let y ← scalarTok (α := α)
-    pure (fmtArr (epInterp trailing f (x, y)))
+    pure (withWitness (fmtArr (epInterp trailing f (x, y))) (wit2 it [(x, y)]))
   | "into" => do
     let x ← scalarTok (α := α); let y ← scalarTok (α := α)
     let bs ← bufTok
-    pure (fmtArr (epInterpInto trailing f (x, y) bs))
+    pure (withWitness (fmtArr (epInterpInto trailing f (x, y) bs)) (wit2 it [(x, y)]))
   | "array" => do
     tagTok
     let qx ← ndarrTok (α := α); let qy ← ndarrTok (α := α)
     if qx.shape ≠ qy.shape then pure "panic"
-    else pure (fmtArr (epArray trailing f qx.shape (qx.flat.zip qy.flat)))
+    else pure (withWitness (fmtArr (epArray trailing f qx.shape (qx.flat.zip qy.flat))) (wit2 it (qx.flat.zip qy.flat)))
   | "ainto" => do
     tagTok
     let qx ← ndarrTok (α := α); let qy ← ndarrTok (α := α)
     let bs ← bufTok
     if qx.shape ≠ qy.shape then pure "panic"
-    else pure (fmtArr (epArrayInto trailing f qx.shape (qx.flat.zip qy.flat) bs))
+    else pure (withWitness (fmtArr (epArrayInto trailing f qx.shape (qx.flat.zip qy.flat) bs)) (wit2 it (qx.flat.zip qy.flat)))
   | t => throw s!"bad entry {t}"
 
 def runOp : P String := do
